@@ -18,11 +18,47 @@ def load_impl(ctx):
     return implmod.load(ctx.work)
 
 
-def make_prov(I, exprs_json, n_units, n_cands=2):
-    """real Provenance from JSON expression list (library operators are NOT used here: flat leaves only)"""
+class UView:
+    """position -> Unit of a real Units object whose keys need not be the positions"""
+    def __init__(self, units, keys):
+        self.units = units
+        self.keys = list(keys)
+
+    def __getitem__(self, pos):
+        return self.units[self.keys[pos]]
+
+
+def rand_keys(rng, n_units):
+    """unit keys for positions 0..n-1: positional, shuffled, gapped integers, strings, tuples"""
+    k = rng.random()
+    if rng is None or k < 0.35:
+        return list(range(n_units)), "positional"
+    if k < 0.55:
+        ks = list(range(n_units))
+        rng.shuffle(ks)
+        return ks, "shuffled"
+    if k < 0.75:
+        return rng.sample(range(-5, 60), n_units), "gapped"
+    if k < 0.9:
+        return ["u%02d" % x for x in rng.sample(range(100), n_units)], "strings"
+    return [("t", x) for x in rng.sample(range(50), n_units)], "tuples"
+
+
+def make_prov(I, exprs_json, n_units, n_cands=2, keys=None, lazy=False):
+    """real Provenance from JSON expression list (library operators are NOT used here: flat leaves only).
+    keys: unit key per position (default = the positions); lazy: units created on first mention instead of up front."""
     import gen
     P = I["provenance"]
-    units = P.Units(units=n_units, candidates=n_cands)
+    if keys is None:
+        keys = list(range(n_units))
+        raw = P.Units(units=n_units, candidates=n_cands)
+    elif lazy:
+        raw = P.Units(candidates=n_cands)
+        for k in keys:
+            raw[k]
+    else:
+        raw = P.Units(units=list(keys), candidates=n_cands)
+    units = UView(raw, keys)
     es = [gen.build_expr(P, units, e) for e in exprs_json]
     return P.Provenance(es), units, es
 
